@@ -27,8 +27,14 @@ TECHNIQUE = ("runtime monitoring: recording wrapper on the FlowGraph the transla
 
 
 def classify(spec, problems):
-    return kf.kf1_take_in_sum(spec, problems) or kf.classify_name_error(spec, problems) or \
-        _kf_static(spec, problems)
+    from . import c04, mcommon
+    probs = [p for p in problems]
+    k = kf.classify_plain(spec, probs) or _kf_static(spec, probs) or mcommon.kf6(spec, probs)
+    if k:
+        return k
+    if any(t in spec.tags for t in ("S1", "S2", "S3", "S4", "S5", "S6", "S8")):
+        return c04.classify(spec, probs)
+    return None
 
 
 def _kf_static(spec, problems):
